@@ -128,6 +128,10 @@ def path_leaf(prog: Program, fi: FuncInfo, expr: ast.AST, depth: int = 6, at: as
         if s is not None:
             return s.split("/")[-1]
         return path_leaf(prog, fi, expr.right, depth - 1)
+    if isinstance(expr, ast.BinOp) and isinstance(expr.op, ast.Add):
+        # a file name put together from constant pieces: PATCH_INFO_FILE + ".tmp"
+        a, b = (const_str(prog, fi, x) if not isinstance(x, ast.BinOp) else path_leaf(prog, fi, x, depth - 1) for x in (expr.left, expr.right))
+        return (a + b).split("/")[-1] if a is not None and b is not None else None
     if isinstance(expr, ast.Call):
         f = expr.func
         if isinstance(f, ast.Attribute) and f.attr == "with_suffix" and expr.args:
@@ -141,7 +145,41 @@ def path_leaf(prog: Program, fi: FuncInfo, expr: ast.AST, depth: int = 6, at: as
         for t in tg.funcs():
             rets = [r.value for r in walk_no_nested(t.node) if isinstance(r, ast.Return) and r.value is not None]
             if len(rets) == 1:
-                return path_leaf(prog, t, rets[0], depth - 1)
+                # the helper's parameters that the call binds to constants (or leaves to constant defaults) are read as
+                # those constants: _info_path(directory, ".tmp") with `return directory / (NAME + suffix)`
+                import copy
+
+                bind = {}
+                a_ = t.node.args
+                pos = [q.arg for q in [*a_.posonlyargs, *a_.args]]
+                if t.cls is not None and not t.is_staticmethod and pos:
+                    pos = pos[1:]
+                for q_, d_ in zip([*a_.posonlyargs, *a_.args][len([*a_.posonlyargs, *a_.args]) - len(a_.defaults):], a_.defaults):
+                    if isinstance(d_, ast.Constant):
+                        bind[q_.arg] = d_
+                for q_, d_ in zip(a_.kwonlyargs, a_.kw_defaults):
+                    if isinstance(d_, ast.Constant):
+                        bind[q_.arg] = d_
+                for i_, arg in enumerate(expr.args):
+                    if i_ < len(pos) and not isinstance(arg, ast.Starred):
+                        cs = const_str(prog, fi, arg)
+                        if cs is not None:
+                            bind[pos[i_]] = ast.Constant(value=cs)
+                        else:
+                            bind.pop(pos[i_], None)
+                for k_ in expr.keywords:
+                    if k_.arg:
+                        cs = const_str(prog, fi, k_.value)
+                        if cs is not None:
+                            bind[k_.arg] = ast.Constant(value=cs)
+                        else:
+                            bind.pop(k_.arg, None)
+
+                class _B(ast.NodeTransformer):
+                    def visit_Name(self, n_):
+                        return copy.deepcopy(bind[n_.id]) if isinstance(n_.ctx, ast.Load) and n_.id in bind else n_
+
+                return path_leaf(prog, t, _B().visit(copy.deepcopy(rets[0])) if bind else rets[0], depth - 1)
         return None
     if isinstance(expr, ast.Name):
         vals = [v for v in all_def_values(fi.node, expr.id)]
